@@ -152,6 +152,31 @@ func checkC28(w *World, r *Run) {
 		}
 		if must && notSigned {
 			loopOK = true
+			// no further condition may excuse a header: between the loop head and the
+			// rejection only the two tests above may lie
+			var loopHead *ssa.BasicBlock
+			for _, f := range factsAt(rr.Block()) {
+				if c := callNamed(f.Val, "mustBeSignedHeader"); c != nil {
+					backSlice(c.Call.Args[0], true, func(x ssa.Value) {
+						if nx, ok := x.(*ssa.Next); ok {
+							loopHead = nx.Block()
+						}
+					})
+				}
+			}
+			for _, f := range factsAt(rr.Block()) {
+				if loopHead == nil || f.If == nil || f.If.Block() == loopHead || !loopHead.Dominates(f.If.Block()) {
+					continue
+				}
+				if callNamed(f.Val, "mustBeSignedHeader") == nil && callNamed(f.Val, "Contains") == nil {
+					loopOK = false
+					desc := describeVal(f.Val)
+					if n, _ := fieldLoadName(f.Val); n != "" {
+						desc = "the field " + n
+					}
+					r.Bad(ruleGuards, "checkAuthentication: unsigned-header rejection has no further condition", posOf(f.If), "the rejection of an unsigned x-amz-*/content-md5 header additionally depends on "+desc+": requests for which it does not hold can carry altered unsigned headers")
+				}
+			}
 			// the authenticated return must lie after the loop: dominated by the range's exit edge
 			for d := ret.Block().Idom(); d != nil; d = d.Idom() {
 				if len(d.Instrs) == 0 {
